@@ -15,7 +15,7 @@ package shutterevents
 //@   ensures ret0 <==> isMember(bc, candidate)
 //@ pred cfgValid(bc) := len(bc.Keypers) >= 1 && bc.Threshold >= 1 && bc.Threshold <= len(bc.Keypers)
 //@ func (*BatchConfig).EnsureValid
-//@   requires bc != nil && len(bc.Keypers) <= 1048576
+//@   requires bc != nil
 //@   ensures ret0 == nil <==> cfgValid(bc)
 //@
 //@ // ---- C14: events as shuttermint wrote them ---------------------------------------------------------------
